@@ -479,6 +479,10 @@ def build(vec, shapes):
             main["defs"].append({"k": "service", "name": ns["st"] + "Svc2", "extends": ns["st"] + "Svc", "functions": [
                 {"name": "more", "oneway": False, "ret": T("bool"), "args": [], "throws": None}]})
 
+    # constants whose value cannot be written in this presentation (see val) are left out
+    for p in w.order:
+        w.files[p]["defs"] = [d for d in w.files[p]["defs"] if not (d["k"] == "const" and d.get("value") is None)]
+
     # every included file must have something in it and be used by its includer (thriftgo skips unused includes)
     for p in w.order:
         f = w.files[p]
